@@ -346,3 +346,5 @@ for _c in ("C34", "C17", "C04"):
 CLAIMS["C36"]["text"] += " Every tag arm of a from_vm that takes a variant apart also takes its payload, placeholder included (MIRROR)."
 CLAIMS["C37"]["text"] += " Apart from the capacity test, no method branches on the occupancy of a storage buffer (OWN-IDSET)."
 CLAIMS["C38"]["text"] += " In the buffer-switch branch the padding is recomputed after the position reset (ARENA-ALIGN)."
+
+CLAIMS["C35"]["text"] += " The innermost-binding clause: go-to-definition returns what the resolver put in the resolution map, so every construct with a body must resolve its body in a scope of its own (SCOPE, shared with C21); a body resolved in the enclosing scope makes a later use jump to a declaration that is out of scope there."
